@@ -76,6 +76,37 @@ def _dom_details_whole(ctx, f, rel, qual):
     return True
 
 
+def _etree_details_whole(ctx, f, rel, qual):
+    """getNodeDetails of the ElementTree walker run as a whole (sa/classeval.py) on models of ElementTree elements whose tag /
+    attribute keys are written the way the tree builder writes them (Clark notation `{namespace}local`, or the plain name): the
+    namespace is what stands between the *first* pair of braces, the name everything after it -- `}` is a legal character of
+    a name the tokenizer produces (<p{{cls}}>, <b}>).  -> True (decided) / falsy (not evaluable: the shape rule decides)."""
+    from ..classeval import ClassEval, SizedRecord
+    r = ctx.r
+    H, XL = "http://www.w3.org/1999/xhtml", "http://www.w3.org/1999/xlink"
+    cases = [("{%s}p" % H, (H, "p")), ("{%s}p{{cls}}" % H, (H, "p{{cls}}")), ("{%s}b}" % H, (H, "b}")), ("p", (None, "p")), ("o:p", (None, "o:p"))]
+    attrib = {"{%s}href" % XL: "v1", "xml:lang": "v2", "title": "v3", "a}b": "v4"}
+    want_attrs = {(XL, "href"): "v1", (None, "xml:lang"): "v2", (None, "title"): "v3", (None, "a}b"): "v4"}
+    bad = []
+    try:
+        for tag, (ns, name) in cases:
+            node = SizedRecord(0, tag=tag, attrib=dict(attrib), text=None, tail=None, get=lambda k, d=None: None)
+            got = ClassEval(ctx.ce, f.module, f.cls, {}, repo=ctx.repo, globals_override={"ElementTreeCommentType": "<function Comment>"}).call(f.name, [node])
+            if not (isinstance(got, tuple) and len(got) == 5 and isinstance(got[3], dict)):
+                return None
+            if (got[1], got[2]) != (ns, name) or got[3] != want_attrs or bool(got[4]):
+                bad.append((tag, (got[1], got[2]), sorted(got[3], key=repr)))
+    except AnalysisError as e:
+        ctx.r.note("C11: etree getNodeDetails not evaluable as a whole (%s)" % str(e)[:100])
+        return None
+    r.check("R11.3", not bad, "%s::attribute-keys" % rel, f.where,
+            "%s reports the element tagged %r as %r with attribute keys %s; the tree holds namespace = the text between the first pair of "
+            "braces, name = everything after it (`}` may occur in a name: <p{{cls}}>), attributes %s" % (
+                qual, bad[0][0] if bad else "", bad[0][1] if bad else "", bad[0][2] if bad else "", sorted(want_attrs, key=repr)),
+            detail={"evaluated": "whole function on ElementTree element models", "cases": len(cases)})
+    return True
+
+
 def _dom_attribute_keys_evaluated(ctx, f, rel, qual) -> bool:
     """R11.3 attribute-keys, DOM walker, by evaluation: the loop that fills the attribute dict is run on three representative
     minidom attribute nodes -- (namespace, local name, qualified name) -- and must produce the key the tree builder stored the
@@ -270,6 +301,8 @@ def run(ctx):
         need = {"DOCTYPE", "TEXT", "ELEMENT", "COMMENT", "DOCUMENT"}
         r.check("R11.3", need <= kinds_seen, "%s::kinds" % rel, f.where, "%s does not report node kinds %s" % (qual, sorted(need - kinds_seen)))
         if rel.endswith("dom.py") and _dom_attribute_keys_evaluated(ctx, f, rel, qual):
+            continue
+        if rel.endswith("etree.py") and _etree_details_whole(ctx, f, rel, qual):
             continue
         keys = [n.targets[0].slice for n in ast.walk(f.node) if isinstance(n, ast.Assign) and isinstance(n.targets[0], ast.Subscript)
                 and norm(n.targets[0].value) == "attrs"]
